@@ -25,6 +25,11 @@ pub(crate) trait ToFileTime {
 
 impl ToFileTime for Timestamp {
     fn to_file_time(&self) -> FileTime {
-        FileTime::from_unix_time(self.as_second(), self.subsec_nanosecond().cast_unsigned())
+        // FileTime wants seconds rounded down and a non-negative fraction.
+        let nanos = self.as_nanosecond();
+        FileTime::from_unix_time(
+            nanos.div_euclid(1_000_000_000) as i64,
+            nanos.rem_euclid(1_000_000_000) as u32,
+        )
     }
 }
